@@ -324,8 +324,11 @@ def run(ctx):
         gens.append(("master, 3 names", dict(NameSet=names3, Vals=vals, WithMaster="TRUE", IgnoreOpts="{FALSE}",
                                              SelMode='"none"'), ()))
     items, n = [], 0
-    # quick replays a seeded sample of the (fully model-checked) table on the slower stores
-    p_plain, p_master, p_git = (1 / 3, 0.25, 1 / 16) if ctx.quick else (1.0, 1.0, 1.0)
+    # TLC model-checks the whole table; the replay is exhaustive on bzr / memory in thorough and a seeded sample
+    # elsewhere: (plain cases on bzr and memory, master cases on bzr, any case on a git combination, annotated git,
+    # 3-name master cases on bzr)
+    p_plain, p_master, p_git, p_annot, p_master3 = (1 / 3, 0.25, 1 / 16, 0.0, 0.0) if ctx.quick else \
+                                                   (1.0, 1.0, 0.25, 0.1, 0.5)
     for label, consts, wit in gens:
         cases = table.generate(ctx, "TagsGen", consts, witnesses=wit, label="TagsGen " + label, workers=4)
         if not cases:
@@ -349,9 +352,9 @@ def run(ctx):
                     kinds.append("memory")
                 if ctx.rng.random() < p_git:
                     kinds += ["git-git", "bzr-git"]
-                if not ctx.quick and ctx.rng.random() < 0.25:
+                if ctx.rng.random() < p_annot:
                     kinds += ["gita-git", "gita-bzr"]        # annotated tags
-            elif ctx.rng.random() < p_master:
+            elif ctx.rng.random() < (p_master if len(c["src"]) == 2 else p_master3):
                 kinds.append("bzr-bzr")
             if ctx.rng.random() < p_git and (ctx.quick or len(c["src"]) == (2 if c["hasMaster"] else 3)):
                 kinds.append("git-bzr")
@@ -359,14 +362,15 @@ def run(ctx):
                 items.append((kind, n, c))
     ctx.rule("TLC enumerates all tag dictionaries over names x {absent, r1, r2}: (src, dst) over 3 names without master, "
              "(src, dst, master) over 2 names with a bound destination x ignore_master (thorough: + 3 names, "
-             "selector=None), x overwrite x selector (None and %s); each case replayed on bzr->bzr (BasicTags, "
-             "re-opened branches), MemoryTags, git->git, bzr->git, git->bzr, thorough also annotated git tags on a "
-             "quarter of the plain cases (quick: seeded sample - 1/3 of the plain "
-             "and 1/4 of the master cases on bzr / memory, 1/16 on each git combination); Store/Load: "
-             "every dictionary x %d hostile name schemes x revision-id schemes via _set_tag_dict and via set_tag, "
-             "re-opened. Non-trivial = source not empty and different from a destination (merge) / dictionary not empty "
-             "(store)" % ("one name subset per size" if ctx.quick else "every name subset", len(NAME_SCHEMES)))
-    ctx.cov["exhaustive"] = not ctx.quick     # quick: TLC side exhaustive, replay sampled on the slow stores
+             "selector=None), x overwrite x selector (None and %s). Replay: thorough - every plain case on bzr->bzr "
+             "(BasicTags, re-opened branches) and MemoryTags, every 2-name master case and a seeded half of the 3-name "
+             "master cases on bzr->bzr with a bound destination, a seeded quarter of the cases on each of git->git, "
+             "bzr->git, git->bzr, a tenth with annotated git tags; quick - seeded 1/3 of the plain and 1/4 of the master "
+             "cases on bzr / memory, 1/16 on each git combination. Store/Load: every dictionary x %d hostile name schemes "
+             "x revision-id schemes via _set_tag_dict and via set_tag (thorough also on disk), re-opened. Non-trivial = "
+             "source not empty and different from a destination (merge) / dictionary not empty (store)"
+             % ("one name subset per size" if ctx.quick else "every name subset", len(NAME_SCHEMES)))
+    ctx.cov["exhaustive"] = not ctx.quick     # TLC side always; replay exhaustive on bzr / memory in thorough
     ctx.assume("git destinations: tag values are commits present in the destination repository (ghost tags cannot be "
                "stored in git refs)")
     core.fork_map(ctx, _replay_collect, items)
